@@ -23,7 +23,7 @@ FLAGSETS = ["", "-storage", "-partition -size", "-no-simplification -length"]
 
 def crosshair(fn, flags, timeout, which=0):
     env = dict(os.environ)
-    env.update({"GASOL_REPO": gasol.REPO, "PYTHONPATH": HERE, "C12_FLAGS": flags, "C12_WHICH": str(which)})
+    env.update({"GASOL_REPO": gasol.REPO, "PYTHONPATH": HERE, "C12_FLAGS": flags, "C12_WHICH": str(which), "C12_DWHICH": str(which)})
     t0 = time.time()
     p = subprocess.run([os.path.join(HERE, ".venv", "bin", "crosshair"), "check", "--report_all", "--per_condition_timeout",
                         str(timeout), "harness.ch_c12." + fn], cwd=HERE, env=env, capture_output=True, text=True, timeout=timeout + 180)
@@ -77,11 +77,17 @@ def main():
     # one string-list global at a time (caches, rule lists, orders): their number comes from the current source
     env = dict(os.environ)
     env.update({"GASOL_REPO": gasol.REPO, "PYTHONPATH": HERE})
-    nl = int(subprocess.run([os.path.join(HERE, ".venv", "bin", "python"), "-W", "ignore", "-c",
-                             "import harness.ch_c12 as H; print(H.NL)"], cwd=HERE, env=env, capture_output=True, text=True).stdout.strip().splitlines()[-1])
+    counts = subprocess.run([os.path.join(HERE, ".venv", "bin", "python"), "-W", "ignore", "-c",
+                             "import harness.ch_c12 as H; print(H.NL, *H.ND)"], cwd=HERE, env=env, capture_output=True, text=True).stdout.strip().splitlines()[-1].split()
+    nl, nd = int(counts[0]), [int(x) for x in counts[1:4]]
     for w in range(nl):
         for fl in ([""] if tier == "quick" else ["", "-storage"]):
             conds.append(("independent_of_lists", fl, 600, w))
+    # one dictionary global at a time (typed after the shapes observed in a native pre-run: str->str, str->int, int->str)
+    for fn, n in zip(("independent_of_dict_ss", "independent_of_dict_si", "independent_of_dict_is"), nd):
+        for w in range(n):
+            for fl in ([""] if tier == "quick" else ["", "-storage"]):
+                conds.append((fn, fl, 600, w))
     with cf.ThreadPoolExecutor(max_workers=16) as ex:
         futs = [ex.submit(crosshair, *c) for c in conds]
         # native histories meanwhile
@@ -154,13 +160,13 @@ def main():
         "samples": [{"crosshair": [(r["function"], r["flags"], r["verdict"], r["seconds"]) for r in chres]},
                     {"history": list(hists[20]) if len(hists) > 20 else [], "subject": subjects[0]}],
         "explanation": "states = CrossHair conditions confirmed over all paths (all scalar assigned globals havocked symbolically at once; "
-                       "each string-list global set to an arbitrary list of at most one arbitrary string; 9 subject blocks); transitions = native history runs (fresh process each: 0, 1 or 2 predecessor blocks "
+                       "each string-list global set to an arbitrary list of at most one arbitrary string; each dictionary global of an observed shape str->str, str->int or int->str set to an arbitrary dictionary with at most one entry; 11 subject blocks); transitions = native history runs (fresh process each: 0, 1 or 2 predecessor blocks "
                        "then the subject block; specification, sub-blocks, emitted code and statistics deltas compared with the empty history)",
         "functions": ["ir_block.evm2rbr_compiler", "gasol_optimization.get_sfs_dict", "gasol_asm.optimize_asm_contract", "gasol_asm.update_*_count"],
         "stubs": ["under CrossHair only: ir_block.write_rbr, gasol_optimization.open/os, ir_block.os (debug dumps; the audit wall forbids file writes)"],
     }
     rep.assumptions = ["option-determined globals (split_sto, size_flag, push/pop/revert flags, split_block, push0_enabled) keep the "
-                       "value the fixed option set implies", "container globals are covered by real histories only"]
+                       "value the fixed option set implies", "dictionary globals whose values are tuples or nested dictionaries (u_dict, push_rebuilt, sfs_contracts, blocks_json_dict) are covered by real histories only"]
     sys.exit(rep.finish())
 
 
